@@ -25,7 +25,8 @@ fn text(p: &Path) -> Vec<u8> {
 
 /// StoreError variant -> code (by name, so that the harness builds whatever variants exist)
 fn serr_code_dbg(d: &str) -> u64 {
-    const NAMES: [(&str, u64); 9] = [
+    const NAMES: [(&str, u64); 10] = [
+        ("PathNotUnicode", 10),
         ("DirUnderFile", 1),
         ("EmptyPath", 2),
         ("NotPlainFileOrDir", 3),
@@ -1164,9 +1165,20 @@ fn shrink_case(c: &Value, sandbox: &Path, fails: Vec<String>) -> (Value, Vec<Str
     (best, what)
 }
 
-fn glyph_image_codes(raws: &[&str]) -> Vec<u64> {
+/// file names for glyph::Image::new: the key spellings plus well- and ill-formed UTF-8
+fn glyph_image_names() -> Vec<Vec<u8>> {
+    let mut v: Vec<Vec<u8>> = RAW_POOL.iter().map(|r| r.as_bytes().to_vec()).collect();
+    let extra: [&[u8]; 22] = [
+        b"\xff", b"a\xff", b"\xc3", b"\xc3\xa9", b"\xc3\xa9.png", b"\xe0\x80\x80", b"\xe0\xa0\x80", b"\xed\xa0\x80",
+        b"\xed\x9f\xbf", b"\xf4\x90\x80\x80", b"\xf4\x8f\xbf\xbf", b"\xf0\x9f\x98\x80", b"\xf0\x8f\xbf\xbf", b"a/\xff",
+        b"/\xff", b"\xc0\x80", b"\xc1\xbf", b"\xef\xbf\xbf", b"\x80", b"\xf5\x80\x80\x80", b"\xe2\x82", b"\xff/",
+    ];
+    v.extend(extra.iter().map(|e| e.to_vec()));
+    v
+}
+fn glyph_image_codes(raws: &[Vec<u8>]) -> Vec<u64> {
     raws.iter()
-        .map(|r| match norad::Image::new(PathBuf::from(r), None, AffineTransform::default()) {
+        .map(|r| match norad::Image::new(pb(r), None, AffineTransform::default()) {
             Ok(_) => 0,
             Err(e) => serr_code(&e),
         })
@@ -1278,12 +1290,13 @@ pub fn main(a: &Args) {
     write_file(&a.out.join("world_cases.txt"), &cases);
     write_file(&a.out.join("world_cases.jsonl"), &jl);
     // glyph::Image::new
-    let gi = glyph_image_codes(&RAW_POOL);
+    let gnames = glyph_image_names();
+    let gi = glyph_image_codes(&gnames);
     write_file(
         &a.out.join("glyph_image.txt"),
         &format!(
             "({}, {})\n",
-            g_list(&RAW_POOL.iter().map(|r| g_bytes(r.as_bytes())).collect::<Vec<_>>()),
+            g_list(&gnames.iter().map(|r| g_bytes(r)).collect::<Vec<_>>()),
             Tm::L(gi.iter().map(|c| Tm::N(*c)).collect()).to_string()
         ),
     );
@@ -1293,7 +1306,8 @@ pub fn main(a: &Args) {
         "exhaustive_data": sa, "exhaustive_image": sb,
         "world_cases": inputs.len(), "world_corpus_cases": ncorpus, "world_operations": nops_total,
         "world_stats": stats.iter().map(|(k, v)| (k.to_string(), json!(v))).collect::<serde_json::Map<_, _>>(),
-        "glyph_image_names": RAW_POOL.len(),
+        "glyph_image_names": gnames.len(),
+        "glyph_image_rejected_not_unicode": gi.iter().filter(|c| **c == 10).count(),
         "os_level_probe": probe,
         "failures": failures,
     });
